@@ -261,7 +261,9 @@ class ReturnMonitor(RefMonitor):
                     ex.count("potential_edges_checked", 1)
                     want = float(phi1) - float(phi0)
                     got = float(np.sum(r[i, a]))
-                    if abs(got - want) > self.tol * max(1.0, abs(want)):
+                    if want != want:  # NaN: the reference declares the potential undefined on this edge
+                        ex.count("potential_edges_undefined", 1)
+                    elif abs(got - want) > self.tol * max(1.0, abs(want)):
                         ex.violation(f"{self.fam}:reward!=potential-difference",
                                      f"reward {got:.6f} != potential(s') - potential(s) = {want:.6f}",
                                      int(parents.ids[i]), int(a))
